@@ -502,10 +502,40 @@ func geoGeom(r *rand.Rand, depth int) orb.Geometry {
 		n := size(r, 3)
 		c := make(orb.Collection, n)
 		for i := range c {
+			// a nil-INTERFACE member (orb.Collection{nil, ring}): geo.Area and length.Length return 0 for a
+			// nil geometry, so it contributes nothing; one member in eight, at every nesting depth
+			if r.Intn(8) == 0 {
+				continue
+			}
 			c[i] = geoGeom(r, depth+1)
 		}
 		return c
 	}
+}
+
+// geoNilMemberCases: the fixed family of collections with nil-interface members — alone, first /
+// middle / last among members of every kind (incl. a Bound, whose Area / Length go through ToRing),
+// repeated, nested one and two levels down, next to typed-nil members.
+func geoNilMemberCases() []orb.Geometry {
+	ring := orb.Ring{{0, 0}, {1, 0}, {1, 1}, {0, 1}, {0, 0}}
+	ls := orb.LineString{{10, 50}, {11, 51}, {12, 50}}
+	out := []orb.Geometry{
+		orb.Collection{nil},
+		orb.Collection{nil, nil},
+		orb.Collection{nil, ring},
+		orb.Collection{ring, nil},
+		orb.Collection{nil, ls},
+		orb.Collection{ls, nil, ring},
+		orb.Collection{orb.Collection{nil}},
+		orb.Collection{ls, orb.Collection{nil}},
+		orb.Collection{orb.Collection{nil, ring}, nil, orb.Collection{ls, orb.Collection{nil, ring, nil}}},
+		orb.Collection{nil, orb.Bound{Min: orb.Point{0, 0}, Max: orb.Point{1, 1}}},
+		orb.Collection{orb.Ring(nil), nil, orb.Collection(nil), ring},
+	}
+	for _, g := range orb.AllGeometries {
+		out = append(out, orb.Collection{nil, g}, orb.Collection{g, nil}, orb.Collection{g, nil, g}, orb.Collection{orb.Collection{g, nil}})
+	}
+	return out
 }
 
 // alongDistances: 0, every running prefix length of ls — accumulated exactly as
@@ -560,6 +590,10 @@ func genC18(c *Ctx) {
 		for _, s := range []string{"nR", "nPG", "nMPG", "nC", "nLS", "nMLS", "nMP"} {
 			c.Case("area", s)
 			c.Case("len", s)
+		}
+		for _, g := range geoNilMemberCases() {
+			c.Case("area", gs(g))
+			c.Case("len", gs(g))
 		}
 	}
 	// exhaustive family: every 3- (and 4-) vertex list over a 3x3 grid of 10-degree points,
